@@ -266,6 +266,21 @@ def _triple(line):
         return None
 
 
+def spoof_lines(stderr_bytes):
+    """The lines of a child's stderr that parse as three integers and come
+    before the header of the report the child wrote last."""
+    lines = stderr_bytes.splitlines()
+    real = None
+    for i in range(len(lines) - 1, -1, -1):
+        t = _triple(lines[i])
+        if t is not None and i + 1 + t[1] + t[2] == len(lines):
+            real = i
+            break
+    if real is None:
+        return []
+    return [ln.strip() for ln in lines[:real] if _triple(ln) is not None]
+
+
 def spoofed_header(stderr_bytes):
     """True when the first line of a child's stderr that parses as three
     integers is *not* the header of the report the child wrote last (the
